@@ -243,7 +243,18 @@ func genPure(c *rig.Ctx) Pure {
 	}
 	p.Used = pickAmount(int64(p.Current) + int64(p.Current)/2)
 	if p.TokenBucket {
-		p.TotalBurst = int32(min64(int64(t)*int64(1+r.Intn(3)), 1<<31-1))
+		// the global burst: usually a multiple of the global qps, but validation only compares it with the LOCAL burst, so
+		// it may well be below the global qps
+		switch r.Intn(6) {
+		case 0:
+			p.TotalBurst = int32(int64(t) / 2)
+		case 1:
+			p.TotalBurst = int32(r.Int63n(int64(t) + 1))
+		case 2:
+			p.TotalBurst = rig.Pick(r, []int32{0, 1, 2})
+		default:
+			p.TotalBurst = int32(min64(int64(t)*int64(1+r.Intn(3)), 1<<31-1))
+		}
 	}
 	return p
 }
@@ -504,8 +515,17 @@ func genHistory(c *rig.Ctx) History {
 	// every term and partial sum is exact, so the order cannot change the result
 	t := rig.Pick(r, []int32{64, 128, 256, 1024, 4096, 65536})
 	h := History{Kind: "history", Total: t, TokenBucket: r.Intn(2) == 0, Clients: 1 + r.Intn(12), Honest: r.Intn(5) != 0}
+	burstFor := func(t int32) int32 {
+		switch r.Intn(5) {
+		case 0:
+			return t / 2 // a global burst below the global qps is legal
+		case 1:
+			return rig.Pick(r, []int32{1, 2, t / 4})
+		}
+		return t * int32(1+r.Intn(3))
+	}
 	if h.TokenBucket {
-		h.TotalBurst = t * int32(1+r.Intn(3))
+		h.TotalBurst = burstFor(t)
 	}
 	nInst := 1 + r.Intn(6)
 	last := map[int]int32{} // the instance's own view of its quota
@@ -543,7 +563,7 @@ func genHistory(c *rig.Ctx) History {
 			cur = nt
 			b := int32(0)
 			if h.TokenBucket {
-				b = nt * int32(1+r.Intn(3))
+				b = burstFor(nt)
 			}
 			h.Ops = append(h.Ops, HOp{Op: "setLimit", T: nt, B: b})
 		default:
@@ -693,6 +713,9 @@ func runAny(c *rig.Ctx, raw json.RawMessage, record bool) bool {
 		json.Unmarshal(raw, &cc)
 		return runConcurrent(c, cc)
 	}
+	if k.Kind == "loop" {
+		return runLoopCase(c, raw, record)
+	}
 	if k.Kind == "history" {
 		var h History
 		json.Unmarshal(raw, &h)
@@ -732,7 +755,11 @@ func main() {
 			c.Case(string(env.Case), true, "corpus", nil)
 			runAny(c, env.Case, true)
 		}
-		n := c.Budget(200000, 6000000)
+		if os.Getenv("C07_ONLY") == "loop" { // development aid: the closed-loop stream alone
+			runLoopStream(c)
+			return
+		}
+		n := c.Budget(200000, 3000000)
 		if !haveCalcShim {
 			n = 0
 			c.Note("the export shim for calculateNextQuota no longer builds: the pure-function stream is skipped, histories through UpdateRateLimitConditionStatus still run")
@@ -777,5 +804,7 @@ func main() {
 				runHistory(c, fixClaims(x), true)
 			}
 		}
+		// the closed loop: N real gateways against the real sharded limiter server (loop.go)
+		runLoopStream(c)
 	})
 }
